@@ -357,6 +357,8 @@ class SimStdout:
         self.sink = bytearray()        # everything delivered (also when not a tty)
         self.write_log = []            # text of every write() call (truncated), in order
         self.call_log = []             # "w" / "f" in call order
+        self.flush_log = []            # bytes pending at every flush() call (keep_full only)
+        self.pend_log = []             # bytes pending at every write() call (keep_full only)
         self.keep_full = False
 
     # text-IO protocol
@@ -385,6 +387,7 @@ class SimStdout:
         data = s.encode("utf-8")
         self.write_log.append(s if (len(s) <= 24 or self.keep_full) else s[:24])
         self.call_log.append("w")
+        self.pend_log.append(bytes(self.buf) if self.keep_full else b"")
         f = self.k.seam("out.write", len(data))
         if f is not None:  # partial delivery
             return self._partial(f, data)
@@ -412,6 +415,10 @@ class SimStdout:
             cut = max(0, len(data) + cut)
         cut = min(cut, len(data))
         n = len(self.buf) + cut
+        if "cut_total" in f:
+            # the device took a prefix of everything that was pending, possibly ending inside
+            # data buffered by earlier write() calls
+            n = min(max(0, f["cut_total"]), len(whole))
         self.buf.clear()
         self._deliver(whole[:n])
         if self.retain:
@@ -423,6 +430,7 @@ class SimStdout:
 
     def flush(self):
         self.call_log.append("f")
+        self.flush_log.append(bytes(self.buf) if self.keep_full else b"")
         f = self.k.seam("out.flush", len(self.buf))
         if f is not None:
             whole = bytes(self.buf)
